@@ -1988,9 +1988,15 @@ func (r *TypeClassSummonContext) summonNamed(ctx CurrentContext, tc metafp.TypeC
 			})
 		},
 		ToReprExpr: func() string {
+			utp := r.w.TypeName(ctx.working, named.Underlying.Type)
+			conv := utp
+			if named.Underlying.IsPtr() || named.Underlying.IsFunc() {
+				// *T(v) is a dereference of T(v), the conversion is (*T)(v)
+				conv = "(" + utp + ")"
+			}
 			return fmt.Sprintf(`func(v %s) %s {
 					return %s(v)
-				}`, nameWithTp, r.w.TypeName(ctx.working, named.Underlying.Type), r.w.TypeName(ctx.working, named.Underlying.Type))
+				}`, nameWithTp, utp, conv)
 		},
 		FromReprExpr: func() string {
 			return fmt.Sprintf(`func(v %s) %s {
